@@ -144,24 +144,54 @@ Definition s_async_def : text := [97; 115; 121; 110; 99; 32; 100; 101; 102; 32].
 Definition s_test : text := [116; 101; 115; 116; 95].
 
 (** [above]: the lines above the def line, nearest first *)
-Fixpoint has_fixture_decorator_above (above : list text) : bool :=
+(** [asy]: since fix 1e3dfbe a decorator line mentioning [pytest_asyncio.fixture] counts too (the
+    analyzer has always treated it as a fixture decorator) *)
+Definition s_pytest_asyncio_fixture : text :=
+  [112; 121; 116; 101; 115; 116; 95; 97; 115; 121; 110; 99; 105; 111; 46; 102; 105; 120; 116; 117; 114; 101].
+Fixpoint has_fixture_decorator_above_with (asy : bool) (above : list text) : bool :=
   match above with
   | [] => false
   | l :: r =>
       let t := trim l in
       match t with
-      | [] => has_fixture_decorator_above r
+      | [] => has_fixture_decorator_above_with asy r
       | _ => if tprefix s_at t
-             then (if (match find s_pytest_fixture t with Some _ => true | None => false end) || tprefix s_at_fixture t
-                   then true else has_fixture_decorator_above r)
+             then (if (match find s_pytest_fixture t with Some _ => true | None => false end)
+                      || (asy && match find s_pytest_asyncio_fixture t with Some _ => true | None => false end)
+                      || tprefix s_at_fixture t
+                   then true else has_fixture_decorator_above_with asy r)
              else false
       end
   end.
+Definition has_fixture_decorator_above := has_fixture_decorator_above_with true.
+Definition has_fixture_decorator_above_old := has_fixture_decorator_above_with false.
 
-Definition scope_in_line (t : text) : option (option N) :=
+(** the first occurrence of [pat] that is not the tail of a longer identifier (since fix 7721f5d:
+    [scope="..."] is not looked for inside [loop_scope="..."]); [match_indices] yields the
+    non-overlapping occurrences from left to right *)
+Fixpoint find_kw (fuel : nat) (pat t : text) (from : N) : option N :=
+  match fuel with
+  | O => None
+  | S f =>
+      match slice_from t from with
+      | None => None
+      | Some rest =>
+          match find pat rest with
+          | None => None
+          | Some k =>
+              let at_ := from + k in
+              match slice_to t at_ with
+              | Some pre => if (match rev pre with c :: _ => ident_char c | [] => false end)
+                            then find_kw f pat t (at_ + blen pat) else Some at_
+              | None => None
+              end
+          end
+      end
+  end.
+Definition scope_in_line_with (strict : bool) (t : text) : option (option N) :=
   (* Some r: the line decides (r = the parsed scope, possibly none); None: keep scanning *)
   let try := fun (pat : text) (q : cp) =>
-    match find pat t with
+    match (if strict then find_kw (S (length t)) pat t 0 else find pat t) with
     | Some pos =>
         match slice_from t (pos + blen pat) with
         | Some rest => match find [q] rest with
@@ -179,21 +209,24 @@ Definition scope_in_line (t : text) : option (option N) :=
   | Some r => Some r
   | None => try s_scope_sq 39
   end.
-Fixpoint scope_from_text (above : list text) : option N :=
+Definition scope_in_line := scope_in_line_with true.
+Fixpoint scope_from_text_with (strict : bool) (above : list text) : option N :=
   match above with
   | [] => None
   | l :: r =>
       let t := trim l in
       match t with
-      | [] => scope_from_text r
+      | [] => scope_from_text_with strict r
       | _ => if tprefix s_at t
-             then match scope_in_line t with
+             then match scope_in_line_with strict t with
                   | Some res => res
-                  | None => scope_from_text r
+                  | None => scope_from_text_with strict r
                   end
              else None
       end
   end.
+Definition scope_from_text := scope_from_text_with true.
+Definition scope_from_text_old := scope_from_text_with false.
 
 Definition net_parens (t : text) : Z :=
   fold_left (fun (d : Z) (c : cp) => if c =? 40 then (d + 1)%Z else if c =? 41 then (d - 1)%Z else d) t 0%Z.
